@@ -445,6 +445,19 @@ def run_zeb(ns, case: dict):
             if got.dtype != numpy.uint8 or got.tobytes() != exp:
                 BOOK.fail(case, "read-past-end-wrong" if right > len(data) else "value-wrong",
                           f"get_unsigned_slice({left},{right}) = {got.tobytes().hex()}, reference {exp.hex()}")
+            elif right > len(data):
+                # the caller owns what it was handed: scribbling over it (where it is writable) must not change what any
+                # later read beyond the end of ANY buffer yields ("read bits beyond the buffer end as zero")
+                try:
+                    got.fill(0xFF)
+                except (ValueError, TypeError):
+                    pass
+                for buf in (zb, ns["ZeroExtendingBuffer"]([memoryview(b"\x5a")])):
+                    again = buf.get_unsigned_slice(len(data) + 1, len(data) + 1 + max(1, right - left))
+                    if any(again.tobytes()):
+                        BOOK.fail(case, "read-past-end-not-zero-after-caller-wrote-to-an-earlier-result",
+                                  f"after writing 0xff into the array returned by get_unsigned_slice({left},{right}), a read beyond the end returns {again.tobytes().hex()}")
+                        break
     except Exception as e:  # pylint: disable=broad-except
         BOOK.fail(case, "raised-" + type(e).__name__, f"{type(e).__name__}: {e}")
 
